@@ -29,3 +29,14 @@ func VerifIsExtraIdentifier(name string) bool {
 	_, ok := extraIdentifiers[name]
 	return ok
 }
+
+// VerifMapElements exposes mapElements() to the verification harness:
+// the pairs of a map in storage order, as key0, value0, key1, value1, ...
+func VerifMapElements(m Map) []Object {
+	els := m.mapElements()
+	res := make([]Object, 0, 2*len(els))
+	for _, kv := range els {
+		res = append(res, kv.Key, kv.Value)
+	}
+	return res
+}
